@@ -1,1 +1,571 @@
-/-! Property theorems for C15 (none yet). -/
+import MirVerif.Lemmas.CheckGrid
+import MirVerif.Lemmas.CheckVar
+/-!
+# C15 — ill-formed IR is rejected through the error callback; well-formed IR is accepted
+
+Property theorems about the model `MirVerif.Model.Check` of `MIR_new_insn_arr` / `MIR_finish_func` /
+`MIR_new_func_reg`, instantiated with the `insn_descs` table and the enums regenerated from /repo
+on every run (`MirVerif.Gen.C15`), against the documented operand classes of `Model/DocModes.lean`
+(transcribed from MIR.md).  The model is tied to the C code by the exhaustive correspondence of
+`checks/c15.py` (every cell through the public API under ASan).
+
+FULL STATEMENTS THAT ARE FALSE ON THE CURRENT CODE (kept here, see `knownDeviations`):
+
+* `grid` (full): `∀ c i o sig dp, docSig c = some sig → sig[i]? = some dp →
+     cellVerdict insnDescs c i o = docOperand dp false o`
+  — false at (laddr, 0), (addr*, 1), the va_list positions with undef-typed memory, (prset, 0),
+  and the property constants given as uint.  `grid` below is the exact version: equality holds
+  *iff* the cell is not covered by a listed deviation; `grid_full_iff` says the full statement is
+  equivalent to the list containing no grid-level entry.
+* `ret_matches_results` (full): a `ret` whose operand count differs from the number of results is
+  rejected with `MIR_vararg_func_error` — today the error path dereferences NULL (`ret_count`).
+* `call_matches_proto` (full, for `jcall` as well): every argument of a `jcall` is checked against
+  the prototype — today `MIR_insn_op_mode` has no case for `MIR_JCALL` (`jcall_unchecked_today`).
+* `call_target` (full): a reference to a non-callable item as call target is rejected — today an
+  assert fails (assert builds) or it is accepted (`call_ref_target`).
+-/
+namespace MirVerif.Check
+open MirVerif.Gen.C15
+
+/-! ## 1. structure: an instruction is judged position by position -/
+
+/-- `per_operand` (accepted case): a fixed-arity instruction with the right operand count passes
+creation and the operand loop of `MIR_finish_func` iff every (opcode, position, kind) cell passes;
+for every table, every operand list. -/
+theorem per_operand (asserts : Bool) (descs : Descs) (protos : List Proto) (fn : Func)
+    (code : Nat) (ops : List Operand)
+    (hf : fixedArity code = true) (hn : ops.length = nopsOf descs code) :
+    insnOperandsVerdict asserts descs protos fn code ops = .ok ↔
+      ∀ k (h : k < ops.length), cellVerdict descs code k ops[k].s = .ok :=
+  per_operand_ok asserts descs protos fn code ops hf hn
+
+/-- `per_operand` (rejected case): the error reported is the verdict of one of the cells -/
+theorem per_operand_rejected (asserts : Bool) (descs : Descs) (protos : List Proto) (fn : Func)
+    (code : Nat) (ops : List Operand) (v : Verdict)
+    (hf : fixedArity code = true) (hn : ops.length = nopsOf descs code)
+    (hv : insnOperandsVerdict asserts descs protos fn code ops = v) (hne : v ≠ .ok) :
+    ∃ k, ∃ h : k < ops.length, cellVerdict descs code k ops[k].s = v :=
+  per_operand_err asserts descs protos fn code ops v hf hn hv hne
+
+example : fixedArity C_FADD = true ∧ [Operand.reg (.decl .f), .reg (.decl .f), .float].length = nopsOf insnDescs C_FADD
+    ∧ insnOperandsVerdict true insnDescs [] ⟨false, []⟩ C_FADD [.reg (.decl .f), .reg (.decl .f), .float] = .ok
+    ∧ insnOperandsVerdict true insnDescs [] ⟨false, []⟩ C_FADD [.reg (.decl .f), .reg (.decl .d), .float]
+        = .err E_op_mode := by decide
+
+/-! ## 2. the grid -/
+
+/-- `grid`: for every opcode MIR.md documents with a fixed operand count, every position, every
+operand kind (register of each type or undeclared, every immediate, memory of every type with
+every base/index/displacement-sign combination, label, reference to every item kind, string):
+the verdict computed from the generated `insn_descs` table equals the documented verdict exactly
+when the cell is not covered by a listed deviation. -/
+theorem grid (c i : Nat) (o : OpS) (sig : List DocPos) (dp : DocPos)
+    (hsig : docSig c = some sig) (hdp : sig[i]? = some dp) :
+    (cellVerdict insnDescs c i o = docOperand dp false o) ↔ deviates c i o = false :=
+  grid_exact c i o sig dp hsig hdp
+
+/-- `grid_partial`: outside the listed deviations implementation and documentation agree -/
+theorem grid_partial (c i : Nat) (o : OpS) (sig : List DocPos) (dp : DocPos)
+    (hsig : docSig c = some sig) (hdp : sig[i]? = some dp) (hdev : deviates c i o = false) :
+    cellVerdict insnDescs c i o = docOperand dp false o :=
+  (grid c i o sig dp hsig hdp).mpr hdev
+
+/-- a concrete cell for each grid-level deviation -/
+def Deviation.witness : Deviation → Option (Nat × Nat × OpS)
+  | .laddrDstNotOut => some (C_LADDR, 0, .int)
+  | .addrSrcNotVar => some (C_ADDR, 1, .int)
+  | .vaListUndefMem => some (C_VA_START, 0, .mem ⟨.undef, false, .r (.decl .i64), .none⟩)
+  | .prsetDstNotVar => some (C_PRSET, 0, .int)
+  | .propUintRejected => some (C_PRSET, 1, .uint)
+  | _ => none
+
+theorem witness_covered (d : Deviation) (c i : Nat) (o : OpS) (h : d.witness = some (c, i, o)) :
+    (docSig c).isSome = true ∧ ((docSig c).getD [])[i]?.isSome = true ∧ d.at c i = true
+      ∧ d.ops o.absDoc = true := by
+  cases d <;> simp [Deviation.witness] at h <;> obtain ⟨rfl, rfl, rfl⟩ := h <;> decide
+
+/-- the counter-examples: every listed grid-level deviation is a cell where the current table
+contradicts MIR.md (for `laddrDstNotOut`: `laddr 5, L` — the model accepts an immediate as the
+destination, the documentation demands `out_op`) -/
+theorem deviation_real (d : Deviation) (hd : d ∈ knownDeviations) (c i : Nat) (o : OpS)
+    (hw : d.witness = some (c, i, o)) :
+    ∃ sig dp, docSig c = some sig ∧ sig[i]? = some dp ∧
+      cellVerdict insnDescs c i o ≠ docOperand dp false o := by
+  obtain ⟨h1, h2, h3, h4⟩ := witness_covered d c i o hw
+  cases hs : docSig c with
+  | none => simp [hs] at h1
+  | some sig =>
+    simp only [hs, Option.getD_some] at h2
+    cases hp : sig[i]? with
+    | none => simp [hp] at h2
+    | some dp =>
+      refine ⟨sig, dp, rfl, hp, ?_⟩
+      intro heq
+      have := (grid c i o sig dp hs hp).mp heq
+      have hdv : deviates c i o = true := by
+        unfold deviates
+        rw [List.any_eq_true]
+        exact ⟨d, hd, by simp [h3, h4]⟩
+      rw [hdv] at this
+      exact absurd this (by decide)
+
+/-- the full grid statement holds iff no grid-level deviation is listed -/
+theorem grid_full_iff :
+    (∀ c i o sig dp, docSig c = some sig → sig[i]? = some dp →
+        cellVerdict insnDescs c i o = docOperand dp false o)
+      ↔ ∀ d ∈ knownDeviations, d.witness = none := by
+  constructor
+  · intro hfull d hd
+    cases hw : d.witness with
+    | none => rfl
+    | some w =>
+      obtain ⟨c, i, o⟩ := w
+      obtain ⟨sig, dp, h1, h2, h3⟩ := deviation_real d hd c i o hw
+      exact absurd (hfull c i o sig dp h1 h2) h3
+  · intro hnone c i o sig dp hs hp
+    apply grid_partial c i o sig dp hs hp
+    unfold deviates
+    rw [List.any_eq_false]
+    intro d hd
+    have hw := hnone d hd
+    cases d <;> simp [Deviation.witness] at hw <;> simp [Deviation.at]
+
+/-- what the accepted/rejected verdict of the laddr cell is today (replayed on the real code) -/
+example : cellVerdict insnDescs C_LADDR 0 .int = .ok ∧ docOperand Doc.Io false .int = .err E_out_op := by
+  decide
+example : deviates C_FADD 2 (.reg (.decl .d)) = false ∧
+    cellVerdict insnDescs C_FADD 2 (.reg (.decl .d)) = .err E_op_mode := by decide
+
+/-! ## 3. arity -/
+
+/-- `arity`: a fixed-arity opcode created with the wrong number of operands gives `ops_num` -/
+theorem arity (asserts : Bool) (protos : List Proto) (fn : Func) (code : Nat) (ops : List Operand)
+    (hf : fixedArity code = true) (hn : ops.length ≠ nopsOf insnDescs code) :
+    insnOperandsVerdict asserts insnDescs protos fn code ops = .err E_ops_num :=
+  arity_error asserts insnDescs protos fn code ops hf hn
+
+/-- … and the count the table demands is the documented one -/
+theorem arity_documented (c : Nat) (sig : List DocPos) (h : docSig c = some sig) :
+    nopsOf insnDescs c = sig.length := by
+  obtain ⟨g, hg, hc, hs⟩ := docSig_group c sig h
+  have h1 := List.all_eq_true.mp nops_agree_all g hg
+  have h2 := List.all_eq_true.mp h1 c hc
+  rw [← hs]
+  exact beq_iff_eq.mp h2
+
+/-- every opcode of `MIR_insn_code_t` is either documented with a fixed signature, documented as
+variadic (call/inline/jcall/ret/switch), or internal — exactly one of the three -/
+theorem opcodes_partition (c : Nat) (h : c < C_INSN_BOUND) :
+    ((docFixed.filter fun g => g.1.contains c).length
+      + (if docVariadic.contains c then 1 else 0) + (if docInternal.contains c then 1 else 0)) = 1 :=
+  beq_iff_eq.mp (List.all_eq_true.mp doc_partition c (List.mem_range.mpr h))
+
+/-- `switch` needs a selector and at least one label -/
+theorem arity_switch (descs : Descs) (protos : List Proto) (ops : List Operand) :
+    newInsnCheck descs protos C_SWITCH ops = if ops.length < 2 then .err E_ops_num else .ok := by
+  unfold newInsnCheck
+  have h1 : fixedArity C_SWITCH = false := by decide
+  simp [h1]
+
+example : newInsnCheck insnDescs [] C_SWITCH [.reg (.decl .i64)] = .err E_ops_num
+    ∧ newInsnCheck insnDescs [] C_SWITCH [.reg (.decl .i64), .label] = .ok := by decide
+example : nopsOf insnDescs C_ADD = 3 ∧ fixedArity C_ADD = true := by decide
+
+/-! ## 4. ret against the function's results -/
+
+/-- `ret_matches_results` (operand classes): operand `i` of `ret` is judged as a value of result
+type `i` of the function -/
+theorem ret_matches_results (asserts : Bool) (descs : Descs) (protos : List Proto) (fn : Func)
+    (ops : List Operand) (i : Nat) (o : OpS)
+    (hres : resTyOk (fn.res.getD i .i64) = true) :
+    finishPos asserts descs protos fn ⟨C_RET, ops⟩ i o = docOperand (docRetPos fn i) false o := by
+  rw [finishPos_ret]
+  exact typed_pos _ false false o hres
+
+/-- `ret_count`: operand count ≠ number of results.  Full statement: `.err E_vararg_func`.
+Today the error path evaluates `curr_func->nres` after `curr_func = NULL`. -/
+theorem ret_count (fn : Func) (prevs : List Insn) (ops : List Operand)
+    (hn : ops.length ≠ fn.res.length) :
+    insnLevel fn prevs true false ⟨C_RET, ops⟩ =
+      if Deviation.retCountCrash ∈ knownDeviations then .crash else .err E_vararg_func := by
+  unfold insnLevel
+  have h1 : (C_RET == C_PHI || C_RET == C_USE) = false := by decide
+  have h2 : (C_RET == C_VA_START) = false := by decide
+  have h3 : (C_RET == C_JRET) = false := by decide
+  simp [h1, h2, h3, hn]
+  decide
+
+/-- `ret` and `jret` cannot be mixed; `jret` needs a function without results -/
+theorem ret_jret_rules (fn : Func) (prevs : List Insn) (ops : List Operand) :
+    insnLevel fn prevs true true ⟨C_RET, ops⟩ = .err E_vararg_func
+    ∧ insnLevel fn prevs true true ⟨C_JRET, ops⟩ = .err E_vararg_func
+    ∧ (fn.res.length ≠ 0 → ∀ r j, insnLevel fn prevs r j ⟨C_JRET, ops⟩ = .err E_vararg_func) := by
+  have h1 : (C_RET == C_PHI || C_RET == C_USE) = false := by decide
+  have h2 : (C_RET == C_VA_START) = false := by decide
+  have h3 : (C_RET == C_JRET) = false := by decide
+  have h4 : (C_JRET == C_PHI || C_JRET == C_USE) = false := by decide
+  have h5 : (C_JRET == C_VA_START) = false := by decide
+  refine ⟨?_, ?_, ?_⟩
+  · unfold insnLevel; simp [h1, h2, h3]
+  · unfold insnLevel; simp [h4, h5]
+  · intro h r j; unfold insnLevel; simp [h4, h5, h]
+
+example : finishFuncCheck true insnDescs [] ⟨false, [.i64, .d]⟩ [⟨C_RET, [.int, .reg (.decl .d)]⟩] = .ok
+    ∧ finishFuncCheck true insnDescs [] ⟨false, [.i64, .d]⟩ [⟨C_RET, [.int, .float]⟩] = .err E_op_mode
+    ∧ finishFuncCheck true insnDescs [] ⟨false, [.i64, .d]⟩ [⟨C_RET, [.int]⟩] = .crash := by decide
+
+/-! ## 5. calls against their prototype -/
+
+def isCallOrInline (c : Nat) : Bool := c == C_CALL || c == C_INLINE
+
+/-- `call_matches_proto` (count): creation of a call-like insn whose first operand is prototype `k` -/
+theorem call_count (descs : Descs) (protos : List Proto) (code k : Nat) (rest : List Operand)
+    (pr : Proto) (hc : isCall code = true) (hp : protos[k]? = some pr) (hl : 1 ≤ rest.length) :
+    newInsnCheck descs protos code (.ref .proto k :: rest) =
+      if callCountOk pr (rest.length + 1) then blkArgsCheck pr 0 (rest.drop 1) else .err E_call_op := by
+  have hf : fixedArity code = false := by simp [fixedArity, hc]
+  have hsw : (code == C_SWITCH) = false := by
+    cases h : code == C_SWITCH
+    · rfl
+    · rw [beq_iff_eq] at h; subst h; exact absurd hc (by decide)
+  have hphi : (code == C_PHI) = false := by
+    cases h : code == C_PHI
+    · rfl
+    · rw [beq_iff_eq] at h; subst h; exact absurd hc (by decide)
+  have hun : (code == C_UNSPEC) = false := by
+    cases h : code == C_UNSPEC
+    · rfl
+    · rw [beq_iff_eq] at h; subst h; exact absurd hc (by decide)
+  unfold newInsnCheck
+  have hlt : ¬ (rest.length + 1 < 2) := by omega
+  simp [hf, hsw, hphi, hun, hc, hp, hlt]
+  split <;> simp_all
+
+/-- the count rule itself: exactly results + parameters + 2 operands, more only for vararg -/
+theorem callCountOk_iff (pr : Proto) (n : Nat) :
+    callCountOk pr n = true ↔
+      (n = pr.res.length + pr.args.length + 2 ∨ (pr.vararg = true ∧ n > pr.res.length + pr.args.length + 2)) := by
+  unfold callCountOk
+  cases hv : pr.vararg <;> simp [hv] <;> omega
+
+theorem allBlk_eq (t : Ty) : allBlk t = blkTy t := by
+  have := Ty.forall_of_all allBlk_iff_blkTy t
+  exact beq_iff_eq.mp this
+
+theorem args_cases {α} (l : List α) (i : Nat) (d : α) :
+    (∃ a, l[i]? = some a ∧ i < l.length ∧ l.getD i d = a) ∨ (l[i]? = none ∧ ¬ i < l.length) := by
+  by_cases h : i < l.length
+  · exact Or.inl ⟨l[i], by simp [h], h, by simp [List.getD, h]⟩
+  · exact Or.inr ⟨by simp [Nat.le_of_not_lt h], h⟩
+
+/-- `call_matches_proto` (block arguments): the creation-time check is the documented agreement,
+and its only error is `wrong_type`; for all prototypes, positions, operands -/
+theorem call_blk (pr : Proto) (j : Nat) (op : Operand) :
+    blkArgCheck pr j op = if docBlkAgree pr j op then .ok else .err E_wrong_type := by
+  by_cases hj : j ≥ pr.res.length
+  · have hnj : ¬ j < pr.res.length := by omega
+    rcases args_cases pr.args (j - pr.res.length) (.i64, 0) with ⟨⟨t, sz⟩, hsome, hlt, hgd⟩ | ⟨hnone, hnlt⟩
+    · have hp : paramAt pr j = some (t, sz) := by simp [paramAt, hj, hsome]
+      cases op <;> simp only [blkArgCheck, docBlkAgree, hp, allBlk_eq, hgd, hlt, hj, hnj] <;>
+        (try (repeat' split)) <;> simp_all <;> omega
+    · have hp : paramAt pr j = none := by simp [paramAt, hj, hnone]
+      cases op <;> simp only [blkArgCheck, docBlkAgree, hp, allBlk_eq, hnlt, hj, hnj] <;>
+        (try (repeat' split)) <;> simp_all
+  · have hlt' : j < pr.res.length := by omega
+    have hp : paramAt pr j = none := by simp [paramAt, hj]
+    cases op <;> simp only [blkArgCheck, docBlkAgree, hp, allBlk_eq, hj, hlt'] <;>
+      (try (repeat' split)) <;> simp_all
+
+/-- prototypes whose result types are scalars and whose parameter types are scalars or blocks -/
+def Proto.wf (pr : Proto) : Bool := pr.res.all resTyOk && pr.args.all (fun a => argTyOk a.1)
+
+theorem getD_all {α} (l : List α) (p : α → Bool) (d : α) (i : Nat) (h : l.all p = true) (hi : i < l.length) :
+    p (l.getD i d) = true := by
+  have : l.getD i d = l[i] := by simp [List.getD, List.getElem?_eq_getElem hi]
+  rw [this]
+  exact List.all_eq_true.mp h _ (List.getElem_mem hi)
+
+/-- `call_matches_proto` (operand classes), `call` and `inline`: every result position is an
+output of the result type, every argument a value of the parameter type (block types as block
+memory), extra arguments of a vararg call are only checked for well-formedness; for all
+prototypes, all operand lists. -/
+theorem call_matches_proto (asserts : Bool) (descs : Descs) (protos : List Proto) (fn : Func)
+    (code k : Nat) (rest : List Operand) (pr : Proto) (i : Nat) (o : OpS)
+    (hc : isCallOrInline code = true) (hp : protos[k]? = some pr) (hwf : pr.wf = true)
+    (hcnt : callCountOk pr (rest.length + 1) = true) (hi2 : 2 ≤ i) (hil : i < rest.length + 1) :
+    finishPos asserts descs protos fn ⟨code, .ref .proto k :: rest⟩ i o
+      = docOperand (docCallPos pr i) true o := by
+  have hcall : isCall code = true := by
+    simp only [isCallOrInline, Bool.or_eq_true] at hc
+    simp only [isCall, Bool.or_eq_true]
+    rcases hc with h | h
+    · exact Or.inl (Or.inl h)
+    · exact Or.inl (Or.inr h)
+  have hnj : (code == C_JCALL) = false := by
+    cases h : code == C_JCALL
+    · rfl
+    · rw [beq_iff_eq] at h; subst h; exact absurd hc (by decide)
+  have hun : (code == C_UNSPEC) = false := by
+    cases h : code == C_UNSPEC
+    · rfl
+    · rw [beq_iff_eq] at h; subst h; exact absurd hcall (by decide)
+  have hi0 : (i == 0) = false := by simp; omega
+  have hi1 : (i == 1) = false := by simp; omega
+  simp only [Proto.wf, Bool.and_eq_true] at hwf
+  obtain ⟨hres, hargs⟩ := hwf
+  unfold finishPos
+  simp only [hun, Bool.false_and, Bool.false_eq_true, if_false, hcall, if_true, protoOf, List.head?_cons, hp]
+  unfold callPos docCallPos
+  simp only [hi0, hi1, Bool.false_and, Bool.false_eq_true, if_false, hnj]
+  rw [callCountOk_iff] at hcnt
+  by_cases hr : i < pr.res.length + 2
+  · have hnv : ¬ (i ≥ pr.res.length + 2 + pr.args.length) := by omega
+    have hout : (decide (2 ≤ i) && decide (i < pr.res.length + 2)) = true := by simp [hi2, hr]
+    rw [hout]
+    simp only [hr, if_true, hnv, decide_false, Bool.and_false, Bool.false_eq_true, if_false]
+    have hty := getD_all pr.res resTyOk .i64 (i - 2) hres (by omega)
+    exact typed_pos (pr.res.getD (i - 2) .i64) true true o (by
+      show argTyOk _ = true
+      simp only [resTyOk] at hty
+      simp only [argTyOk, hty, Bool.true_or])
+  · have hout : (decide (2 ≤ i) && decide (i < pr.res.length + 2)) = false := by simp [hr]
+    rw [hout]
+    by_cases ha : i < pr.res.length + 2 + pr.args.length
+    · have hnv : ¬ (i ≥ pr.res.length + 2 + pr.args.length) := by omega
+      simp only [hr, if_false, ha, if_true, hnv, decide_false, Bool.and_false, Bool.false_eq_true]
+      have hty := getD_all pr.args (fun a => argTyOk a.1) (.i64, 0) (i - 2 - pr.res.length) hargs (by omega)
+      exact typed_pos (pr.args.getD (i - 2 - pr.res.length) (.i64, 0)).1 false true o hty
+    · have hge : i ≥ pr.res.length + 2 + pr.args.length := Nat.le_of_not_lt ha
+      have hv : pr.vararg = true := by
+        rcases hcnt with h | h
+        · omega
+        · exact h.1
+      simp only [hr, if_false, ha, hv, hge, decide_true, Bool.and_self, if_true]
+      exact (moded_pos true o).2.2
+
+/-- the second operand of a call given as a value (not a reference) must be an integer value -/
+theorem call_address (asserts : Bool) (descs : Descs) (protos : List Proto) (fn : Func)
+    (code k : Nat) (rest : List Operand) (pr : Proto) (o : OpS)
+    (hc : isCallOrInline code = true) (hp : protos[k]? = some pr) (hnr : o.mode ≠ OP_REF) :
+    finishPos asserts descs protos fn ⟨code, .ref .proto k :: rest⟩ 1 o
+      = docOperand (.val .int false) true o := by
+  have hcall : isCall code = true := by
+    simp only [isCallOrInline, Bool.or_eq_true] at hc
+    simp only [isCall, Bool.or_eq_true]
+    rcases hc with h | h
+    · exact Or.inl (Or.inl h)
+    · exact Or.inl (Or.inr h)
+  have hnj : (code == C_JCALL) = false := by
+    cases h : code == C_JCALL
+    · rfl
+    · rw [beq_iff_eq] at h; subst h; exact absurd hc (by decide)
+  have hun : (code == C_UNSPEC) = false := by
+    cases h : code == C_UNSPEC
+    · rfl
+    · rw [beq_iff_eq] at h; subst h; exact absurd hcall (by decide)
+  have hm : (o.mode == OP_REF) = false := by simpa using hnr
+  unfold finishPos
+  simp only [hun, Bool.false_and, Bool.false_eq_true, if_false, hcall, if_true, protoOf, List.head?_cons, hp]
+  unfold callPos
+  have h10 : ((1 : Nat) == 0) = false := by decide
+  have hv : ¬ ((1 : Nat) ≥ pr.res.length + 2 + pr.args.length) := by omega
+  have h2 : ((decide (2 ≤ (1 : Nat))) && decide ((1 : Nat) < pr.res.length + 2)) = false := by simp
+  simp only [h10, Bool.false_eq_true, if_false, hm, Bool.and_false, hnj, hv, decide_false, beq_self_eq_true,
+    if_true, h2]
+  exact (moded_pos true o).1
+
+/-- `call_ref_target`: the second operand given as a reference.  Full statement: a reference to a
+non-callable item is rejected.  Today: skipped when callable; otherwise an assert fails in an
+assert-enabled build and a default (NDEBUG) build accepts it. -/
+theorem call_ref_target (asserts : Bool) (descs : Descs) (protos : List Proto) (fn : Func)
+    (code k : Nat) (rest : List Operand) (pr : Proto) (r : RefS)
+    (hc : isCall code = true) (hp : protos[k]? = some pr) :
+    finishPos asserts descs protos fn ⟨code, .ref .proto k :: rest⟩ 1 (.ref r)
+      = if asserts && !callableRef r then .crash else .ok := by
+  have hun : (code == C_UNSPEC) = false := by
+    cases h : code == C_UNSPEC
+    · rfl
+    · rw [beq_iff_eq] at h; subst h; exact absurd hc (by decide)
+  unfold finishPos
+  simp only [hun, Bool.false_and, Bool.false_eq_true, if_false, hc, if_true, protoOf, List.head?_cons, hp]
+  unfold callPos
+  have h10 : ((1 : Nat) == 0) = false := by decide
+  have hm : ((OpS.ref r).mode == OP_REF) = true := by simp [OpS.mode]
+  simp only [h10, Bool.false_eq_true, if_false, beq_self_eq_true, hm, Bool.and_self, if_true]
+  cases hcond : (asserts && !callableRef r) <;> simp
+
+/-- what `jcall` does today: argument positions 2..4 read zero bytes of the `jcall` row
+(`MIR_OP_UNDEF`: anything passes), positions ≥ 5 index outside `op_modes[5]` -/
+theorem jcall_unchecked_today (h : Deviation.jcallUnchecked ∈ knownDeviations) :
+    let pr : Proto := ⟨false, [], [(.i64, 0), (.i64, 0), (.i64, 0), (.i64, 0)]⟩
+    let ops : List Operand := [.ref .proto 0, .ref .func 0, .reg (.decl .f), .float, .label, .int]
+    finishPos true insnDescs [pr] ⟨false, []⟩ ⟨C_JCALL, ops⟩ 2 (.reg (.decl .f)) = .ok
+    ∧ finishPos true insnDescs [pr] ⟨false, []⟩ ⟨C_JCALL, ops⟩ 4 .label = .ok
+    ∧ finishPos true insnDescs [pr] ⟨false, []⟩ ⟨C_JCALL, ops⟩ 5 .int = .crash
+    ∧ docOperand (docCallPos pr 2) true (.reg (.decl .f)) = .err E_op_mode := by
+  have _ := h
+  decide
+
+example : let pr : Proto := ⟨true, [.i64], [(.d, 0), (.blk1, 16)]⟩
+    pr.wf = true ∧
+    finishFuncCheck true insnDescs [pr] ⟨false, []⟩
+      [⟨C_CALL, [.ref .proto 0, .ref .import_ 0, .reg (.decl .i64), .double,
+                 .mem .blk1 16 (.r (.decl .i64)) .none, .str]⟩] = .ok
+    ∧ newInsnCheck insnDescs [pr] C_CALL [.ref .proto 0, .ref .import_ 0, .reg (.decl .i64), .double,
+                 .mem .blk1 8 (.r (.decl .i64)) .none] = .err E_wrong_type
+    ∧ newInsnCheck insnDescs [pr] C_CALL [.ref .proto 0, .ref .import_ 0, .reg (.decl .i64)] = .err E_call_op
+    ∧ finishFuncCheck true insnDescs [pr] ⟨false, []⟩
+      [⟨C_CALL, [.ref .proto 0, .ref .import_ 0, .int, .double,
+                 .mem .blk1 16 (.r (.decl .i64)) .none]⟩] = .err E_out_op := by decide
+
+/-! ## 6. overflow branches -/
+
+def isOverflowBranchCode (c : Nat) : Prop := c = C_BO ∨ c = C_UBO ∨ c = C_BNO ∨ c = C_UBNO
+
+theorem ob_bool (a u m sg um : Bool) (x y : Verdict) :
+    (if (!a) = true then x else if (u && m) = true then x else if (sg && um) = true then x else y)
+      = if (a && !(u && m || sg && um)) = true then y else x := by
+  cases a <;> cases u <;> cases m <;> cases sg <;> cases um <;> rfl
+
+theorem insnLevel_ob (fn : Func) (prevs : List Insn) (r j : Bool) (c : Nat) (ops : List Operand)
+    (h1 : (c == C_PHI || c == C_USE) = false) (h2 : (c == C_VA_START) = false)
+    (h3 : (c == C_JRET) = false) (h4 : (c == C_RET) = false) (h5 : isCall c = false)
+    (h6 : isOverflowBranch c = true) :
+    insnLevel fn prevs r j ⟨c, ops⟩ =
+      match overflowProducer prevs with
+      | none => .err E_invalid_insn
+      | some p => if isOverflowInsn p.code && flagCompatible c p.code then .ok else .err E_invalid_insn := by
+  unfold insnLevel
+  simp only [h1, h2, h3, h4, h5, h6, Bool.and_false, Bool.false_and, Bool.false_or, Bool.or_false,
+    Bool.false_eq_true, if_false, if_true]
+  cases overflowProducer prevs with
+  | none => rfl
+  | some p =>
+    simp only [flagCompatible]
+    exact ob_bool _ _ _ _ _ _ _
+
+/-- the insns between an overflow branch and the insn whose flag it consumes: `ms` are register
+moves / stores of registers, `p` is the first insn that is not -/
+def FlagProducer (prevs : List Insn) (p : Insn) : Prop :=
+  ∃ ms rest, prevs = ms ++ p :: rest ∧ (∀ m ∈ ms, isRegMove m = true) ∧ isRegMove p = false
+
+/-- `overflow_branch_adjacency`: a branch on overflow is accepted iff, going back over register
+moves and stores of registers (`mov x, reg`) only, the first other insn is an overflow insn whose
+signedness fits; otherwise `invalid_insn`.  For all insn lists. -/
+theorem overflow_branch_adjacency (fn : Func) (prevs : List Insn) (r j : Bool) (c : Nat) (ops : List Operand)
+    (hc : isOverflowBranchCode c) :
+    ((∃ p, FlagProducer prevs p ∧ isOverflowInsn p.code = true ∧ flagCompatible c p.code = true)
+        → insnLevel fn prevs r j ⟨c, ops⟩ = .ok)
+    ∧ ((¬ ∃ p, FlagProducer prevs p ∧ isOverflowInsn p.code = true ∧ flagCompatible c p.code = true)
+        → insnLevel fn prevs r j ⟨c, ops⟩ = .err E_invalid_insn) := by
+  have key : insnLevel fn prevs r j ⟨c, ops⟩ =
+      match overflowProducer prevs with
+      | none => .err E_invalid_insn
+      | some p => if isOverflowInsn p.code && flagCompatible c p.code then .ok else .err E_invalid_insn := by
+    rcases hc with rfl | rfl | rfl | rfl <;>
+      exact insnLevel_ob fn prevs r j _ ops (by decide) (by decide) (by decide) (by decide) (by decide) (by decide)
+  rw [key]
+  constructor
+  · rintro ⟨p, hp, h1, h2⟩
+    have : overflowProducer prevs = some p := (overflowProducer_spec prevs p).mpr hp
+    simp [this, h1, h2]
+  · intro hno
+    cases hop : overflowProducer prevs with
+    | none => rfl
+    | some p =>
+      have hp := (overflowProducer_spec prevs p).mp hop
+      by_cases hgood : (isOverflowInsn p.code && flagCompatible c p.code) = true
+      · rw [Bool.and_eq_true] at hgood
+        exact absurd ⟨p, hp, hgood.1, hgood.2⟩ hno
+      · simp [hgood]
+
+example : let addo : Insn := ⟨C_ADDO, [.reg (.decl .i64), .reg (.decl .i64), .int]⟩
+    let mv : Insn := ⟨C_MOV, [.mem .i64 0 (.r (.decl .i64)) .none, .reg (.decl .i64)]⟩
+    let mvi : Insn := ⟨C_MOV, [.reg (.decl .i64), .int]⟩
+    finishFuncCheck true insnDescs [] ⟨false, []⟩ [addo, mv, ⟨C_BO, [.label]⟩] = .ok
+    ∧ finishFuncCheck true insnDescs [] ⟨false, []⟩ [addo, mvi, ⟨C_BO, [.label]⟩] = .err E_invalid_insn
+    ∧ finishFuncCheck true insnDescs [] ⟨false, []⟩ [⟨C_UMULO, addo.ops⟩, ⟨C_BNO, [.label]⟩] = .err E_invalid_insn := by
+  decide
+
+/-! ## 7. declarations and internal opcodes -/
+
+/-- `undeclared_reg`: an operand naming a register that was never declared is reported as
+`undeclared_func_reg` whatever the position expects -/
+theorem undeclared_reg (ip : ImplPos) : finishOperandAt ip (.reg .undecl) = .err E_undeclared_func_reg := by
+  cases ip; rfl
+
+/-- … also as base or index of a memory operand of an acceptable type -/
+theorem undeclared_mem_reg (ip : ImplPos) (t : Ty) (x : MemReg) (ht : scalarTy t = true) :
+    finishOperandAt ip (.mem ⟨t, false, .r .undecl, x⟩) = .err E_undeclared_func_reg
+    ∧ finishOperandAt ip (.mem ⟨t, false, .none, .r .undecl⟩) = .err E_undeclared_func_reg := by
+  obtain ⟨e, out, callp, va⟩ := ip
+  have hw : wrongType t = false := by
+    have := Ty.forall_of_all wrongType_iff_not_scalar t
+    rw [ht] at this
+    simpa using this
+  have hb : allBlk t = false := by
+    rw [allBlk_eq]
+    cases t <;> simp_all [scalarTy, blkTy]
+  constructor <;>
+    simp [finishOperandAt, finishOperandA, OpS.abs, OpS.absWith, selfErr, hw, hb, memRegSelf, RV.seq, RV.v, seq]
+
+/-- `repeated_decl`: declaring a name that is already declared (argument or local) -/
+theorem repeated_decl (decls : List (List Char)) (t : Ty) (name : List Char)
+    (ht : (regTyOfCode t).isSome = true) (hr : reservedName name = false) (hd : name ∈ decls) :
+    declReg decls t name = .err E_repeated_decl := by
+  unfold declReg createReg
+  cases h : regTyOfCode t with
+  | none => simp [h] at ht
+  | some rt => simp [hr, hd]
+
+/-- `reserved_name`: `.lc…` and `hr<digits>` cannot be declared -/
+theorem reserved_name (decls : List (List Char)) (t : Ty) (rest : List Char)
+    (ht : (regTyOfCode t).isSome = true) :
+    declReg decls t ('.' :: 'l' :: 'c' :: rest) = .err E_reserved_name
+    ∧ (rest.all isDigit = true → declReg decls t ('h' :: 'r' :: rest) = .err E_reserved_name) := by
+  unfold declReg createReg
+  cases h : regTyOfCode t with
+  | none => simp [h] at ht
+  | some rt =>
+    refine ⟨by simp [reservedName], fun hdig => ?_⟩
+    simp [reservedName_hr rest hdig]
+
+/-- registers can only be declared `i64`, `f`, `d`, `ld` -/
+theorem reg_type (decls : List (List Char)) (t : Ty) (name : List Char) (ht : regTyOfCode t = none) :
+    declReg decls t name = .err E_reg_type := by
+  unfold declReg; simp [ht]
+
+/-- a fresh, unreserved name of a register type is accepted -/
+theorem fresh_decl (decls : List (List Char)) (t : Ty) (name : List Char)
+    (ht : (regTyOfCode t).isSome = true) (hr : reservedName name = false) (hd : name ∉ decls) :
+    declReg decls t name = .ok := by
+  unfold declReg createReg
+  cases h : regTyOfCode t with
+  | none => simp [h] at ht
+  | some rt => simp [hr, hd]
+
+/-- `use`/`phi` ("used only internally") and `va_start` outside a vararg function are rejected -/
+theorem internal_rejected (fn : Func) (prevs : List Insn) (r j : Bool) (ops : List Operand) :
+    insnLevel fn prevs r j ⟨C_USE, ops⟩ = .err E_vararg_func
+    ∧ insnLevel fn prevs r j ⟨C_PHI, ops⟩ = .err E_vararg_func
+    ∧ (fn.vararg = false → insnLevel fn prevs r j ⟨C_VA_START, ops⟩ = .err E_vararg_func) := by
+  refine ⟨?_, ?_, ?_⟩
+  · unfold insnLevel; simp
+  · unfold insnLevel; simp
+  · intro h
+    have h1 : (C_VA_START == C_PHI || C_VA_START == C_USE) = false := by decide
+    unfold insnLevel; simp [h1, h]
+
+example : declReg ["x".toList] .i64 "x".toList = .err E_repeated_decl
+    ∧ declReg [] .i64 "hr12".toList = .err E_reserved_name
+    ∧ declReg [] .u8 "y".toList = .err E_reg_type
+    ∧ declReg ["x".toList] .f "y".toList = .ok := by decide
+
+/-! ## 8. the generated table is what the C code assumes -/
+
+/-- `check_and_prepare_insn_descs`: row `i` describes opcode `i`, one row per opcode -/
+theorem descs_indexed :
+    insnDescs.length = C_INSN_BOUND ∧ insnDescs.map (·.1) = List.range C_INSN_BOUND := by
+  decide +kernel
+
+end MirVerif.Check
